@@ -51,7 +51,7 @@ class AbstractGate:
         """
         return self._parameters
 
-    def call(self, *args, **kwargs):
+    def call(self, /, *args, **kwargs):
         """
         Create a :class:`GateStatement` that calls this gate.
         The arguments to this method will be the arguments the gate is called with.
@@ -101,7 +101,7 @@ class AbstractGate:
             param.validate(params[param.name])
         return GateStatement(self, params)
 
-    def __call__(self, *args, **kwargs):
+    def __call__(self, /, *args, **kwargs):
         return self.call(*args, **kwargs)
 
     def copy(self, *, name=None, parameters=None, ideal_unitary=None):
